@@ -76,10 +76,18 @@ def unbordered(b):
     return len(b) > 0 and not any(b[:k] == b[-k:] for k in range(1, len(b)))
 
 
-def roundtrip(spelling, kind):
+# texts of the write -> read dimension (C15 quantifies over texts): the
+# plain one, and one whose later lines begin with / contain U+FEFF - the
+# character a BOM-consuming spelling must only ever drop at the very start
+# of the section's byte stream, never per line (seed C15-5)
+TEXTS = ['top\n  line two',
+         'one\n\ufefftwo\n  \ufeffthree\nfo\ufeffur\n\ufeff']
+
+
+def roundtrip(spelling, kind, src='top\n  line two'):
     fp = io.BytesIO()
     w = DiffXWriter(fp)
-    w.write_preamble('top\n  line two', encoding=spelling,
+    w.write_preamble(src, encoding=spelling,
                      line_endings=kind)
     w.new_change()
     w.write_meta({'k': 'v'}, encoding=spelling)
@@ -143,6 +151,30 @@ def table(tier):
                             and meta == {'k': 'v'})
                     if kind == 'unix' and text != 'top\n  line two\n':
                         okrt = False
+                    # further texts, where the codec can encode them: the
+                    # text read back is the text written (plus the final
+                    # newline), and the bytes do not depend on the spelling
+                    for ti, src in enumerate(TEXTS[1:], 1):
+                        try:
+                            src.encode(canon)
+                        except UnicodeError:
+                            continue
+                        evals += 1
+                        d2, t2, _m2 = roundtrip(sp, kind, src)
+                        f, r = d2.split(b'\n', 1)
+                        n2 = f + b'\n' + re.sub(
+                            (r'encoding=%s(?=[,\n])'
+                             % re.escape(sp)).encode(), b'encoding=@', r)
+                        if table.ref.setdefault((canon, kind, ti),
+                                                n2) != n2:
+                            failures.append({
+                                'obligation': 'T4.same_bytes',
+                                'spelling': sp, 'kind': kind, 'text': ti})
+                        if t2 != src + NL[kind]:
+                            okrt = False
+                            data = ('text %d read back as %r'
+                                    % (ti, t2)).encode('unicode_escape')
+                            break
                 except Exception as e:  # noqa
                     okrt = False
                     data = ('EXC %s: %s' % (type(e).__name__, e)).encode()
